@@ -29,6 +29,7 @@ def run(prog, rep, tier='quick'):
     rep.rule('counts', 'symbolic length of the returned coefficient vectors equals the requested order')
     rep.rule('solver-output', 'the AR coefficients returned by arma_estimate derive from the first result of arcovar / arcovar_marple (value identity through slicing)')
     rep.rule('exposure', 'identity of the abstract values: arma2psd(A,B,rho,T) receives obj.ar / obj.ma / obj.rho / obj.sampling')
+    rep.rule('admission', 'no guard on the sizes raises on the stated domains of ma (0<Q<M<N) and arma_estimate (Q<=lag, lag+2P-Q<=N, 2Q<N-P)')
     rep.rule('guard', 'ma(X,Q,M) has a normal path iff 0 < Q < M (constant contexts on both sides of each bound)')
     f = prog.func('arma', 'arma_estimate')
     n_counts = 0
@@ -161,6 +162,19 @@ def run(prog, rep, tier='quick'):
                 rep.proved('exposure', cls.qname, c, 'T is the sampling attribute', where)
             else:
                 rep.violation('exposure', cls.qname, c, 'arma2psd is not called with T = sampling (%r)' % (T,), where)
+    # the stated domains are admitted: ma 0 < Q < M < N ; arma_estimate Q <= lag, lag + 2P - Q <= N, 2Q < N - P
+    from ..d1rules import admission_of
+    seen_adm = set()
+    grid = [{'N': n_, 'Ma': m_, 'Qa': q_} for n_ in (16, 17) for m_ in range(2, n_) for q_ in range(1, m_)]
+    admission_of(rep, prog, 'admission', 'arma', 'ma',
+                 lambda: ([C.data(True, phase=False), IntV(Aff.sym('Qa'), frozenset(['order'])), IntV(Aff.sym('Ma'), frozenset(['order']))], {}), grid,
+                 lambda w: 'N = %d, Q = %d, M = %d' % (w['N'], w['Qa'], w['Ma']), seen_adm)
+    grid = [{'N': n_, 'Pa': p_, 'Qa': q_, 'La': l_} for n_ in (16, 21) for p_ in range(1, 5) for q_ in range(1, 5)
+            for l_ in range(q_, n_ - 2 * p_ + q_ + 1) if 2 * q_ < n_ - p_]
+    admission_of(rep, prog, 'admission', 'arma', 'arma_estimate',
+                 lambda: ([C.data(True, phase=False), IntV(Aff.sym('Pa'), frozenset(['order'])), IntV(Aff.sym('Qa'), frozenset(['order'])),
+                           IntV(Aff.sym('La'), frozenset(['lag']))], {}), grid,
+                 lambda w: 'N = %d, P = %d, Q = %d, lag = %d' % (w['N'], w['Pa'], w['Qa'], w['La']), seen_adm)
     rep.floor('count obligations', n_counts, 20)
     rep.floor('guard contexts', n_guard, 6)
     rep.floor('exposure obligations', n_exp, 6 * 2 * 3)
